@@ -9,6 +9,7 @@ import json
 from .. import dump, gen
 from . import construct as C
 from . import formats
+from .. import formats as doc_formats
 
 ALLOWED_ERRORS = ("TypeError", "ValueError", "InvalidStructureErr", "IndexError", "KeyError")
 
@@ -361,7 +362,7 @@ def gen_cases_ext(rng, tier, n_classes, immutable=False):
             case = dict(case, cls=json.loads(json.dumps(case["cls"])), kw=list(case["kw"]))
             fields = case["cls"]["fields"]
             fmt = rng.choice(["date:%Y-%m-%d", "date:%d/%m/%Y", "time", "ipv4", "hostname", "json"])
-            good = [v for v in formats.POOL if formats.fmt_ok(fmt, v)]
+            good = [v for v in formats.POOL if doc_formats.ok(fmt, v)]
             fields.append(["z", {"k": "string", "fmt": fmt}])
             fields.append(["y", {"k": "seqOf", "item": {"k": "string", "fmt": fmt}}])
             if rng.random() < 0.5:
@@ -460,15 +461,17 @@ def gen_cases_ext(rng, tier, n_classes, immutable=False):
             case["kw"].append(["w", {"m": [["t", mk_mid()]]} if top["k"] == "mapOf" else {"l": [mk_mid()]}])
             k1 = "t" if top["k"] == "mapOf" else 0
             k2 = "a" if mid["k"] == "mapOf" else 0
+            from extract import wrappers as _wr
+            skip_deep = bool(case["cls"].get("immutable")) and nested_bound_now() and not _wr.nested_deep_immutable()
             for _ in range(rng.randint(2, 5)):
                 deep = rng.random() < 0.7
                 decl, path = (inner, [k1, k2]) if deep else (mid, [k1])
                 if rng.random() < 0.12:
                     path = path[:-1] + [rng.choice([5, "nokey"])]
                 call = gen_ext_call(rng, vg, tbl, wrapper_kind(decl), decl, None)
-                if call:
-                    ops.insert(rng.randrange(len(ops) + 1),
-                               {"op": "callNested", "f": "w", "k": {"l": path}, "m": call[0], "args": call[1], **call[2]})
+                pos = rng.randrange(len(ops) + 1)
+                if call and not (deep and skip_deep):
+                    ops.insert(pos, {"op": "callNested", "f": "w", "k": {"l": path}, "m": call[0], "args": call[1], **call[2]})
         ext = dict(case, ops=ops, ext=True)
         # a hook of the second family: "one of these fields must hold a value", over fields the start instance holds,
         # with operations that try to clear them (None assignment, deletion)
@@ -481,11 +484,18 @@ def gen_cases_ext(rng, tier, n_classes, immutable=False):
                     clear = {"op": "setattr", "f": g, "v": None} if rng.random() < 0.6 else {"op": "delitem", "f": g}
                     ops.insert(rng.randrange(len(ops) + 1), clear)
         ext["re"] = gen.re_table(case["cls"], case["kw"], ops)
-        over = formats.overrides(ext["re"])
-        if over:
-            ext["reOverride"] = over
         out.append(ext)
     return out
+
+
+_NB = {}
+
+
+def nested_bound_now():
+    from extract import wrappers
+    if "v" not in _NB:
+        _NB["v"] = wrappers.nested_bound()
+    return _NB["v"]
 
 
 def bound_cases():
